@@ -27,6 +27,7 @@ func init() {
 	}})
 	register(&PropertyRule{ID: "C08", Explain: "structural necessary conditions of C08 (apply stream): see DESIGN.md §5 C08", Run: func(c *Check) {
 		gApply(c)
+		sliceRules(c)
 	}})
 	register(&PropertyRule{ID: "C19", Explain: "structural conditions of C19 (determinism): all nondeterminism sources, map iterations and globals in code reachable from the API; see DESIGN.md §5 C19", Run: func(c *Check) {
 		c19Determinism(c)
@@ -38,6 +39,7 @@ func init() {
 	}})
 	register(&PropertyRule{ID: "C09", Explain: "structural necessary conditions of C09 (snapshot install): see DESIGN.md §5 C09", Run: func(c *Check) {
 		c09Snapshot(c)
+		cSnapClear(c)
 		gTrunc(c)
 		gCommitMono(c)
 		c06Follower(c)
@@ -51,8 +53,20 @@ func init() {
 		gTrunc(c)
 		gCommitMono(c)
 		gApply(c)
+		sliceRules(c)
 		gCommitLeader(c)
 		c06Follower(c)
+		// cluster-level agreement additionally rests on every node-local safety mechanism:
+		gVote(c)
+		gElect(c)
+		gQuorumJoint(c)
+		gAppendMatch(c)
+		gStamp(c)
+		gStable(c)
+		gMatchAck(c)
+		gRoute(c)
+		c10Gate(c)
+		c10Hup(c)
 	}})
 	register(&PropertyRule{ID: "C04", Explain: "structural necessary conditions of C04 (leader completeness): see DESIGN.md §5 C04", Run: func(c *Check) {
 		gVote(c)
@@ -61,6 +75,10 @@ func init() {
 		c04Noop(c)
 		gAppendMatch(c)
 		gStamp(c)
+		gElect(c)
+		gMatchAck(c)
+		c10Gate(c)
+		c10Hup(c)
 	}})
 	register(&PropertyRule{ID: "C11", Explain: "structural necessary conditions of C11 (ReadIndex, ReadOnlySafe): see DESIGN.md §5 C11", Run: func(c *Check) {
 		c11ReadIndex(c)
@@ -78,5 +96,24 @@ func init() {
 		gStable(c)
 		gAppendMatch(c)
 		gStamp(c)
+		c03Unstable(c)
+		sliceRules(c)
 	}})
+	register(&PropertyRule{ID: "C18", Explain: "structural necessary conditions of C18 (log storage views): see DESIGN.md §5 C18", Run: func(c *Check) {
+		c18Storage(c)
+		gStable(c)
+		sliceRules(c)
+	}})
+}
+
+// sliceRules: the combined stable+unstable range query (size limiting, no gap
+// between the parts, non-empty prefix).
+func sliceRules(c *Check) {
+	p := c.P
+	lslice, limit, ext, es := p.Method("raft", "raftLog", "slice"), p.Func("raft", "limitSize"), p.Func("raft", "extend"), p.Func("raft", "entsSize")
+	if lslice == nil || limit == nil || ext == nil || es == nil {
+		return
+	}
+	c16Slice(c, lslice, limit, ext, es)
+	c16LimitSize(c, limit)
 }
